@@ -859,11 +859,16 @@ class FieldValueMimeType(FieldValueComponentBase):
     def _parse(cls, parsable):
         parser = ParserText(parsable)
 
-        parser.parse_string_until_separator('registry', '/', item_class=MimeTypeRegistry)
+        # type and subtype are case-insensitive (RFC 9110 8.3.1)
+        parser.parse_string_until_separator('registry', '/', item_class=cls._get_registry)
         parser.parse_separator('/')
         parser.parse_string_by_length('type', parser.unparsed_length)
 
-        return FieldValueMimeType(**parser), parser.parsed_length
+        return FieldValueMimeType(parser['type'].lower(), parser['registry']), parser.parsed_length
+
+    @classmethod
+    def _get_registry(cls, value):
+        return MimeTypeRegistry(value.lower())
 
     def compose(self):
         composer = ComposerText()
